@@ -29,6 +29,12 @@ Proof. split; [exact cev_ki | exact cev_krsqrt2]. Qed.
 Theorem C07_rot_image_in_C : forall a k, cmev (rot_k a k) = Crot a (INR k * (PI / 32))%R.
 Proof. exact cmev_rot_k. Qed.
 
+(* the NV conditional rotation at EVERY exactly representable angle (all k, i.e. every
+   n * pi / 2^d with d <= 4, not only the angles 8/16 and 24/16 that occur in table rows): its
+   complex image is |0><0| (x) exp(-i t sigma) + |1><1| (x) exp(+i t sigma), t = k pi/32 *)
+Theorem C07_crot_image_in_C : forall a k, cmev (crot_k a k) = Ccrot a (INR k * (PI / 32))%R.
+Proof. exact cmev_crot_k. Qed.
+
 Theorem C07_gate_images_in_C :
   cmev gX = [[C0; C1]; [C1; C0]] /\
   cmev gY = [[C0; Copp Ci]; [Ci; C0]] /\
@@ -60,6 +66,7 @@ Qed.
 Print Assumptions C07_complex_hom.
 Print Assumptions C07_complex_constants.
 Print Assumptions C07_rot_image_in_C.
+Print Assumptions C07_crot_image_in_C.
 Print Assumptions C07_gate_images_in_C.
 Print Assumptions C07_decomp_in_C.
 Print Assumptions C07_mov_in_C.
